@@ -1,10 +1,13 @@
 #!/usr/bin/env python3
-"""tools/regress.py <lanes> [name-regex]  — re-runs the property's own quick check against every seeded change,
+"""tools/regress.py <lanes> [name-regex] [--meta] [--checks=C01,C02]  — re-runs the property's own quick check against every seeded change,
 in parallel lanes that never touch /repo or /verif: each lane has its own scratch worktree of /repo and its own copy
 of /verif under /tmp/rg (removed at the end). Results: /tmp/rg-results.jsonl (one line per seed); nothing is written
 to the seeds' meta.json."""
 import json, os, re, subprocess, sys, threading, shutil
-lanes = int(sys.argv[1]); rx = re.compile(sys.argv[2] if len(sys.argv) > 2 else ".")
+args = [a for a in sys.argv[1:] if not a.startswith("--")]
+write_meta = "--meta" in sys.argv  # also record the outcome in the seed's meta.json (as tools/seedmatrix.py does)
+checks = next((a.split("=", 1)[1].split(",") for a in sys.argv if a.startswith("--checks=")), None)
+lanes = int(args[0]); rx = re.compile(args[1] if len(args) > 1 else ".")
 root = "/verif/seeded"; base = "/tmp/rg"
 names = sorted(n for n in os.listdir(root) if rx.search(n) and os.path.exists(f"{root}/{n}/meta.json"))
 out = open("/tmp/rg-results.jsonl", "a"); lock = threading.Lock()
@@ -13,16 +16,24 @@ def lane(k):
     d = f"{base}/lane{k}"; wt = f"{d}/wt"; vf = f"{d}/verif"
     os.makedirs(d, exist_ok=True)
     sh(f"git -C /repo worktree remove --force {wt}; git -C /repo worktree add -f --detach {wt} HEAD")
-    sh(f"rsync -a --exclude .git --exclude .build --exclude seeded --exclude evidence/replays /verif/ {vf}/")
+    sh(f"rsync -a --delete --exclude .git --exclude .build --exclude seeded --exclude evidence/replays /verif/ {vf}/")
     for n in names[k::lanes]:
         meta = json.load(open(f"{root}/{n}/meta.json")); pid = meta["property"]
         sh(f"git -C {wt} reset -q --hard HEAD; git -C {wt} clean -fdq")
         if sh(f"git -C {wt} apply {root}/{n}/patch.diff").returncode != 0:
             res = {"name": n, "applies": False}
         else:
-            p = sh(f"./check {pid}", cwd=vf, env=dict(os.environ, VERIF_REPO=wt))
-            sigs = sorted(set(re.findall(r"^  ([^ ]+): ", p.stdout, re.M)))
-            res = {"name": n, "property": pid, "applies": True, "exit": p.returncode, "detected": p.returncode == 1, "signatures": sigs[:5]}
+            for c in (checks or [pid]):
+                p = sh(f"./check {c}", cwd=vf, env=dict(os.environ, VERIF_REPO=wt))
+                sigs = sorted(set(re.findall(r"^  ([^ ]+): ", p.stdout, re.M)))
+                res = {"name": n, "property": pid, "check": c, "applies": True, "exit": p.returncode, "detected": p.returncode == 1, "signatures": sigs[:5]}
+                if write_meta:
+                    with lock:
+                        meta = json.load(open(f"{root}/{n}/meta.json"))
+                        meta.setdefault("check_results", {})[c] = {"tier": "quick", "seed": int(os.environ.get("VERIF_SEED", "1")), "exit": p.returncode, "detected": p.returncode == 1, "signatures": sigs[:8],
+                                                                 "summary": (re.findall(r"^C\d+ \w+ seed.*$", p.stdout, re.M) or [""])[-1]}
+                        meta["what_ran"] = "scratch worktree of /repo with seeded/<name>/patch.diff applied; VERIF_REPO=<worktree> ./check <ID> (tools/regress.py)"
+                        json.dump(meta, open(f"{root}/{n}/meta.json", "w"), indent=1)
         with lock:
             out.write(json.dumps(res) + "\n"); out.flush()
             print(n, "DETECTED" if res.get("detected") else res, flush=True)
